@@ -4,24 +4,39 @@ from common_tb import COMMON_TB
 
 
 CFG = dict(
-    id="C12", tie="Tie.C12", n_quick=350, n_thorough=1500, thorough_seeds=3,
-    rule="a case is one history on a fresh table t(id INTEGER [AUTO_INCREMENT] PK, v INTEGER [NOT NULL], s VARCHAR[1..4]) "
-         "[CHECK (v >= 0)]: 12 scripted histories (the witnesses of every defect found and since repaired, honest concurrent duplicates, "
-         "delete/re-insert, auto-increment mixed with explicit ids) plus random histories of 8-26 events by 1 session (60%) "
-         "or 2 sessions interleaved under a random schedule (40%): autocommit statements, multi-statement implicit "
-         "transactions, BEGIN/statement/COMMIT/ROLLBACK, CREATE [UNIQUE] INDEX on populated tables; statements: INSERT "
-         "(1-3 rows), UPSERT, INSERT ON CONFLICT DO NOTHING / DO UPDATE SET, UPDATE of v or s (by id or all rows), DELETE (by id or all rows); "
-         "ids 1..5 (+0,-1,7,9,1000), v in {0,1,10,20,30} (+negatives, 2^40, NULL, non-numeric strings), s around the declared "
-         "length (len-1, len, len+1, longer, empty, NULL, integers); every event's outcome (ok/error) and the whole table after "
-         "it are compared with the model; non-trivial = the table changed at least twice and at least one event failed; "
-         "distinct by the whole history and observations",
+    id="C12", tie="Tie.C12", n_quick=300, n_thorough=1500, thorough_seeds=3,
+    rule="two streams. (A) MODELLED stream, compared with the Coq model event by event: one history on a fresh table "
+         "t(id INTEGER [AUTO_INCREMENT] PK, v INTEGER [NOT NULL], s VARCHAR[1..4]) [CHECK (v >= 0)] whose UNIQUE index is on "
+         "(v) or, for a third of the cases, the composite one on (v, s): 12 scripted histories (the witnesses of every defect "
+         "found and since repaired, honest concurrent duplicates, delete/re-insert, auto-increment around maxPK, deprecation "
+         "inside one transaction, composite-index updates that change one indexed column and keep the other) plus random "
+         "histories of 8-26 events by 1 session (60%) or 2 sessions interleaved under a random schedule (40%): autocommit "
+         "statements, multi-statement implicit transactions, BEGIN/statement/COMMIT/ROLLBACK, CREATE [UNIQUE] INDEX on "
+         "populated tables; statements: INSERT (1-3 rows), UPSERT, INSERT ON CONFLICT DO NOTHING / DO UPDATE SET, UPDATE of v "
+         "or s (by id or all rows), DELETE (by id or all rows); ids 1..5 (+0,-1,7,9,1000), v in {0,1,10,20,30} (+negatives, "
+         "2^40, NULL, non-numeric strings), s around the declared length (len-1, len, len+1, longer, empty, NULL, integers); "
+         "every event's outcome (ok/error) and the whole table after it are compared with the model; non-trivial = the table "
+         "changed at least twice and at least one event failed; distinct by the whole history and observations. (B) WIDE "
+         "stream, direct oracle only (counted in the buckets wide/*, not as cases): n/2 random + 4 scripted histories over "
+         "generalised schemas - 1-2 tables, single or composite primary key, 2-3 INTEGER value columns (NOT NULL), single and "
+         "composite [UNIQUE] indexes, ALTER TABLE ADD COLUMN ([NOT NULL] [DEFAULT]) / DROP COLUMN / RENAME COLUMN - by 2-3 "
+         "sessions: DDL in its own autocommit transactions interleaved with open idle / read-only / writing transactions "
+         "(incl. a transaction opened on a cold catalog cache and committed after another session's DDL), then DML by fresh "
+         "transactions; the tables are read back at random points (not after every event: a read-only transaction warms "
+         "the catalog cache) and checked against the constraints DECLARED so far as tracked by the harness from the DDL the "
+         "engine accepted: PK and UNIQUE-index duplicates, NOT NULL, readability with the declared columns, no change by "
+         "failed events",
     trusted_base=COMMON_TB + [
         "modelled (coq/SQLCons/Model.v): UpsertIntoStmt.execAt, doUpsert, deprecateIndexEntries, UpdateStmt.execAt, "
         "DeleteFromStmt.execAt, CreateIndexStmt.execAt's emptiness test, NewTx/loadMaxPK, OngoingTx read-set recording "
-        "(Get, GetWithPrefix, key readers) and checkPreconditions, the indexer's injective mapping for the unique index; "
-        "one table, three columns, constants only in SET/VALUES",
-        "NOT modelled: other column types, multi-column keys/indexes, expressions (v = v + 1), DEFAULT, ALTER TABLE, "
-        "JSON, DDL inside a multi-statement transaction (never generated; the model rejects it), the SQL parser; string "
+        "(Get, GetWithPrefix, key readers) and checkPreconditions, the indexer's injective mapping for the unique index "
+        "(single-column on v, or composite on (v, s): key = concatenation of the encoded columns, sameIndexKey over all "
+        "columns); one table, three columns, constants only in SET/VALUES. THE THEOREMS COVER THIS FRAGMENT ONLY",
+        "covered by the direct falsifier only (wide stream, no model, no theorem): several tables, composite primary keys, "
+        "indexes on other columns, ALTER TABLE ADD/DROP/RENAME COLUMN and DEFAULT, the engine's catalog cache under "
+        "concurrent DDL, 3 sessions",
+        "neither modelled nor generated: other column types than INTEGER/VARCHAR, expressions (v = v + 1), JSON, DDL "
+        "inside a multi-statement transaction (the model rejects it), the SQL parser; string "
         "literals holding decimal numerals and integer literals outside int64 (implicit conversions) are outside the "
         "generated input space",
         "the early return of checkPreconditions for a snapshot newer than the last precommitted transaction is modelled as "
